@@ -116,8 +116,8 @@ std::string snapshot(OPN2_MIDIPlayer *dev, State &st)
             if(!first) os << ";"; first = false;
             if(n.isBlank)
             {
-                // the dummy record of a blank instrument: only key, flags and ttl are defined
-                os << (unsigned)n.note << ":0:0:0:B:" << ratStr(n.ttl) << ">";
+                // the dummy record of a blank instrument: only key, flags (the percussion flag is read by the allocator) and ttl are defined
+                os << (unsigned)n.note << ":0:0:0:" << (n.isPercussion ? "PB:" : "B:") << ratStr(n.ttl) << ">";
                 continue;
             }
             os << (unsigned)n.note << ":" << (unsigned)n.vol << ":" << n.noteTone << ":" << n.midiins << ":"
